@@ -89,6 +89,15 @@ class BodyPairs(Family):
                     # s*K2' centred so that K1's interior point is fixed, then shifted
                     img = X.xform(K1, ID, s, X.add(X.scal(1 - F(s), c), off))
                     out.append(img)
+        elif kind == 'probe':
+            # a small copy of K2 placed near every vertex of K1 (inside, towards the centre) and just outside it
+            c1 = X.interior_point(K1)
+            c2 = X.interior_point(K2)
+            for v in K1[1]:
+                for lam in spec['lams']:
+                    centre = X.add(v, X.scal(lam, X.sub(c1, v)))
+                    for s_ in spec['scales']:
+                        out.append(X.xform(K2, ID, s_, X.sub(centre, X.scal(F(s_), c2))))
         elif kind == 'reorient':
             for (M, s) in spec['maps']:
                 for t in spec['window']:
@@ -232,6 +241,8 @@ def _families(tier):
                                   {'scales': (F(1, 2), 2, 1), 'offsets': ((0, 0, 0), (F(1, 4), 0, 0), (0, F(-1, 4), F(1, 4)))}))
             fams.append(BodyPairs('reorient', pose, pairs,
                                   {'maps': ((A.P1.M, F(1, 2)), (ROT345Z, F(1, 4)), (RX90, 1)), 'window': window(-1, 1, 1)[:7]}))
+            fams.append(BodyPairs('probe', pose, [(a, b) for a in ('pyramid', 'spire', 'cut-cube', 'skew-tetra') for b in ('box', 'tetrahedron', 'square')],
+                                  {'lams': (F(1, 4), F(-1, 8)), 'scales': (F(1, 8),)}))
         return fams
     polys = ['triangle', 'square', 'parallelogram', 'pentagon', 'hexagon', 'octagon']
     phs = ['tetrahedron', 'box', 'prism', 'pyramid', 'octahedron', 'cut-cube', 'hull7']
@@ -247,6 +258,8 @@ def _families(tier):
             fams.append(BodyPairs('align', pose, qp, {'limit': 1}))
         fams.append(BodyPairs('nested', pose, [(b, b) for b in list(A.POLYGONS) + list(A.POLYHEDRA)],
                               {'scales': (F(1, 2), 2, 1, F(3, 2)), 'offsets': ((0, 0, 0), (F(1, 4), 0, 0), (0, F(-1, 4), F(1, 4)), (F(1, 2), F(1, 2), 0))}))
+        fams.append(BodyPairs('probe', pose, [(a, b) for a in A.POLYHEDRA for b in ('box', 'tetrahedron', 'square', 'octahedron')],
+                              {'lams': (F(1, 4), F(1, 2), F(-1, 8)), 'scales': (F(1, 8), F(1, 4))}))
         fams.append(BodyPairs('reorient', pose, pairs if pose.name == 'P0' else qp,
                               {'maps': ((A.P1.M, F(1, 2)), (A.P2.M, F(1, 4)), (A.P3.M, 1), (ROT345Z, F(1, 4)), (ROT90Z, 1), (RX90, 1)),
                                'window': window(-1, 1, 1)}))
